@@ -9,7 +9,7 @@ from __future__ import annotations
 
 import ast
 
-from .interp import (Interp, AnalysisAbort, PyRaise, Obj, Marker, NDARRAY, NUMBER, ExtModule, BT, Opaque, TypeFn, PyModel)
+from .interp import (einsum_sublists, Interp, AnalysisAbort, PyRaise, Obj, Marker, NDARRAY, NUMBER, ExtModule, BT, Opaque, TypeFn, PyModel)
 from . import symnum as S
 from .symnum import SArr, Rat, rat, fsym, SymAbort
 from .npmodel import NumpyRaise, ModelAbort
@@ -558,7 +558,7 @@ class SymInterp(Interp):
         if name == "copy":
             return lambda a: a.copy()
         if name == "einsum":
-            return lambda spec, *ops, **kw: S.einsum(spec, *ops)
+            return lambda spec, *ops, **kw: S.einsum(*einsum_sublists(spec, ops))
         if name == "sum":
             return lambda a, axis=None, **kw: I.unwrap(S.reduce_sum(S.asarr(a), axis))
         if name == "cumsum":
